@@ -126,3 +126,29 @@ def replace_all(s, a, b):
 def next_boundary(w, k):
     """position of the next '/' after position k, or len(w)"""
     return len(w) if w.find('/', k + 1) == -1 else w.find('/', k + 1)
+
+
+# ----------------------------------------------------------------------------- lists as sets of members
+def all_in(lst, pred):
+    """smt-builtin: pred holds for every member of lst"""
+    return all(pred(x) for x in lst)
+
+
+def any_in(lst, pred):
+    """smt-builtin: pred holds for some member of lst"""
+    return any(pred(x) for x in lst)
+
+
+# ----------------------------------------------------------------------------- issues (C12)
+def issue_wf(x):
+    """well-formedness of an issue's tag-relative indices w.r.t. the place of its tag in the validated text:
+    what every format_error call site establishes (sub-tag span call-pre) and _update_error_with_char_pos needs"""
+    return ((x.span_start is None) == (x.span_end is None)
+            and implies(x.span_start is not None, 0 <= x.span_start and x.span_start <= x.span_end)
+            and implies(x.has_index_in_tag, 0 <= x.index_in_tag)
+            and implies(x.has_index_in_tag and x.has_index_in_tag_end and x.span_start is not None,
+                        x.index_in_tag <= x.index_in_tag_end and x.index_in_tag_end <= x.span_end - x.span_start)
+            and implies(x.has_index_in_tag and not x.has_index_in_tag_end and x.span_start is not None,
+                        x.index_in_tag <= x.span_end - x.span_start)
+            and implies(x.has_index_in_tag_end, x.has_index_in_tag and x.index_in_tag_end is not None)
+            and implies(x.has_source_tag, x.source_tag is not None))
